@@ -128,6 +128,9 @@ pub fn run_c15(tier: &str) -> i32 {
                 continue;
             }
             rep.tv(1);
+            if l == " //TXTPP#run x" || l == "-TXTPP#writex" {
+                rep.sample(json!({"line": l, "reference_classification": format!("{:?}", classify(l))}));
+            }
             match check_line(rep, l) {
                 Some(h) => {
                     kinds.insert(format!("{:?}:{}", h.kind, (!h.ws.is_empty() as u8) | ((!h.prefix.is_empty() as u8) << 1) | ((!h.arg.is_empty() as u8) << 2)));
@@ -157,6 +160,9 @@ pub fn run_c15(tier: &str) -> i32 {
             }
             for c in &conts {
                 check_pair(rep, line, h, c);
+            }
+            if line == " //TXTPP#" {
+                rep.sample(json!({"directive_line": line, "continuations_tried": conts.len(), "example": ["   x", " // x", " //"]}));
             }
             rep.tv(conts.len());
             rep.add("pairs", conts.len() as u64);
